@@ -139,10 +139,36 @@ def warnEnd : Bytes := [41, 10]
 /-- a line is written as is; the terminator is added when missing -/
 def withTerm (bs : Bytes) : Bytes := if bs.getLast? = some 10 then bs else bs ++ [10]
 
+/-! #### texts copied from the source (source-anchored in checks/C14.json; tied to the byte lists
+used by `renderItem` in `Lemmas/BinaryOut.lean`, `*_text`) -/
+
+/-- ASCII text as bytes -/
+def textBytes (s : String) : Bytes := s.toList.map Char.toNat
+
+/-- `hiargs.rs::BinaryDetection::from_low_args`: `quit(b'\x00')` / `convert(b'\x00')` -- the byte the
+`0 ∉ render …` theorems of Props/C14 are about -/
+def binaryByte : Nat := 0x00
+/-- `standard.rs` `StandardBuilder::new`: `separator_field_match: Arc::new(b":".to_vec())` -/
+def sepFieldMatchText : String := ":"
+/-- `separator_field_context: Arc::new(b"-".to_vec())` -/
+def sepFieldContextText : String := "-"
+/-- `separator_context: Arc::new(Some(b"--".to_vec()))` -/
+def sepContextText : String := "--"
+/-- `standard.rs` `write_binary_message`, `Quit` -/
+def warnStoppedHead : String := "WARNING: stopped searching binary file after match"
+/-- `standard.rs` `write_binary_message`, `Convert` -/
+def warnMatchesHead : String := "binary file matches"
+def warnFoundText : String := " (found "
+def warnAroundText : String := " byte around offset "
+
+def fieldMatchSep : Bytes := [58]
+def fieldContextSep : Bytes := [45]
+def contextSepLine : Bytes := [45, 45, 10]
+
 def renderItem (path : Bytes) : Item → Bytes
-  | .matchLine ln bs => path ++ [58] ++ natBytes ln ++ [58] ++ withTerm bs
-  | .contextLine ln bs => path ++ [45] ++ natBytes ln ++ [45] ++ withTerm bs
-  | .sep => [45, 45, 10]
+  | .matchLine ln bs => path ++ fieldMatchSep ++ natBytes ln ++ fieldMatchSep ++ withTerm bs
+  | .contextLine ln bs => path ++ fieldContextSep ++ natBytes ln ++ fieldContextSep ++ withTerm bs
+  | .sep => contextSepLine
   | .stoppedWarning off => path ++ warnStopped ++ natBytes off ++ warnEnd
   | .binaryMatches off => path ++ warnMatches ++ natBytes off ++ warnEnd
 
